@@ -91,11 +91,13 @@ pub struct CliOpts {
     pub order: Option<u64>,
     pub timeout_ms: u64,
     pub cap: usize,
+    /// standard input is a directory: every read fails (EISDIR) instead of returning data or end of file
+    pub stdin_unreadable: bool,
 }
 
 impl Default for CliOpts {
     fn default() -> Self {
-        CliOpts { interpreted: false, order: None, timeout_ms: 4000, cap: 1 << 20 }
+        CliOpts { interpreted: false, order: None, timeout_ms: 4000, cap: 1 << 20, stdin_unreadable: false }
     }
 }
 
@@ -145,13 +147,20 @@ fn run_cli_once(src: &[u8], stdin: &[u8], o: &CliOpts) -> CliOut {
         }
     }
     cmd.env("RUST_BACKTRACE", "0");
-    cmd.stdin(Stdio::piped()).stdout(Stdio::piped()).stderr(Stdio::piped());
+    if o.stdin_unreadable {
+        cmd.stdin(Stdio::from(std::fs::File::open("/").expect("open /")));
+    } else {
+        cmd.stdin(Stdio::piped());
+    }
+    cmd.stdout(Stdio::piped()).stderr(Stdio::piped());
     let t0 = Instant::now();
     let mut child = cmd.spawn().expect("spawn CLI");
     // the script is written by a helper thread (a script longer than the pipe capacity would block
     // against a child that is itself blocked writing its output); a child that exits early gives
     // EPIPE, ignored; the pipe is closed when the script is written
-    let writer = {
+    let writer = if o.stdin_unreadable {
+        None
+    } else {
         let mut si = child.stdin.take().unwrap();
         if stdin.len() <= 4096 {
             let _ = si.write_all(stdin);
